@@ -99,6 +99,8 @@ class SwitchBlockCompileHandler(
             # Insert a jump blueprint for now, note it, and if it comes up later during 3b,
             # process it like explained there.
             default_jmp_to_case_block = SsbLabelJumpBlueprint(self.compiler_ctx, self.ctx, OP_JUMP, [])
+            # The jump is placed before the case blocks, so it needs its number now (like the case header ops).
+            default_jmp_to_case_block.set_index_number(self.compiler_ctx.counter_ops.allocate(1))
             self._case_handlers.insert(self._default_handler_index, self._default_handler)
         else:
             # 2c. If no default: Create a default block with just one jump to end label
